@@ -801,6 +801,13 @@ pub open spec fn spec_some(s: Seq<Status>) -> Status {
     if has(s, Status::PASS) { Status::PASS } else if has(s, Status::FAIL) { Status::FAIL } else { Status::SKIP }
 }
 
+// "a block is evaluated once per selected value (an unresolved value counts as FAIL). all: FAIL iff it failed for some
+// value, PASS iff none failed and it passed for one, else SKIP; some: PASS iff it passed for some value, FAIL iff none
+// passed and one failed, else SKIP"
+pub open spec fn spec_block(match_all: bool, vs: Seq<Status>) -> Status {
+    if match_all { spec_all(vs) } else { spec_some(vs) }
+}
+
 pub open spec fn count(s: Seq<Status>, x: Status) -> nat
     decreases s.len()
 {
@@ -952,7 +959,8 @@ pub trait EvalContext<'value, 'loc: 'value> {
         ensures
             ((forall|n: Seq<char>| (final(self)).rule_sem(n) == (old(self)).rule_sem(n)) && (forall|q: Seq<QueryPart<'loc>>| (final(self)).query_sem(q) == (old(self)).query_sem(q))),
             r is Ok ==> st_extends(old(self).stack(), final(self).stack()),
-            r is Ok ==> old(self).query_sem(query@) == Some(r->Ok_0@),;
+            r is Ok ==> old(self).query_sem(query@) == Some(r->Ok_0@),
+            r is Ok ==> r->Ok_0@.len() < 0x7fff_ffff,;
 
     fn find_parameterized_rule( &mut self, rule_name: &str, ) -> (r: Result<&'value ParameterizedRule<'loc>>)
         ensures
@@ -1107,6 +1115,15 @@ pub fn eval_when_clause__canary<'value, 'loc: 'value>(
     resolver: &mut dyn EvalContext<'value, 'loc>,
 ) -> (res: Result<Status>)
 { assert(false); vstd::pervasive::unreached() }
+// ---- fn guard/src/rules/eval.rs::eval_when_clause (assumed elsewhere as clause_stub.spec)
+pub fn eval_when_clause__as_assumed_0<'value, 'loc: 'value>(
+    when_clause: &'value WhenGuardClause<'loc>,
+    resolver: &mut dyn EvalContext<'value, 'loc>,
+) -> (res: Result<Status>)
+    ensures
+        ((forall|n: Seq<char>| (final(resolver)).rule_sem(n) == (old(resolver)).rule_sem(n)) && (forall|q: Seq<QueryPart<'loc>>| (final(resolver)).query_sem(q) == (old(resolver)).query_sem(q))),
+        clause_post(old(resolver).stack(), final(resolver).stack(), res),
+{ let r = eval_when_clause(when_clause, resolver); r }
 // ---- fn guard/src/rules/eval.rs::eval_guard_clause
 pub fn eval_guard_clause<'value, 'loc: 'value>(
     gc: &'value GuardClause<'loc>,
@@ -1135,6 +1152,15 @@ pub fn eval_guard_clause__canary<'value, 'loc: 'value>(
     resolver: &mut dyn EvalContext<'value, 'loc>,
 ) -> (res: Result<Status>)
 { assert(false); vstd::pervasive::unreached() }
+// ---- fn guard/src/rules/eval.rs::eval_guard_clause (assumed elsewhere as clause_stub.spec)
+pub fn eval_guard_clause__as_assumed_0<'value, 'loc: 'value>(
+    gc: &'value GuardClause<'loc>,
+    resolver: &mut dyn EvalContext<'value, 'loc>,
+) -> (res: Result<Status>)
+    ensures
+        ((forall|n: Seq<char>| (final(resolver)).rule_sem(n) == (old(resolver)).rule_sem(n)) && (forall|q: Seq<QueryPart<'loc>>| (final(resolver)).query_sem(q) == (old(resolver)).query_sem(q))),
+        clause_post(old(resolver).stack(), final(resolver).stack(), res),
+{ let r = eval_guard_clause(gc, resolver); r }
 // ---- fn guard/src/rules/eval.rs::eval_rule_clause
 pub fn eval_rule_clause<'value, 'loc: 'value>(
     rule_clause: &'value RuleClause<'loc>,
@@ -1158,5 +1184,14 @@ pub fn eval_rule_clause__canary<'value, 'loc: 'value>(
     resolver: &mut dyn EvalContext<'value, 'loc>,
 ) -> (res: Result<Status>)
 { assert(false); vstd::pervasive::unreached() }
+// ---- fn guard/src/rules/eval.rs::eval_rule_clause (assumed elsewhere as clause_stub.spec)
+pub fn eval_rule_clause__as_assumed_0<'value, 'loc: 'value>(
+    rule_clause: &'value RuleClause<'loc>,
+    resolver: &mut dyn EvalContext<'value, 'loc>,
+) -> (res: Result<Status>)
+    ensures
+        ((forall|n: Seq<char>| (final(resolver)).rule_sem(n) == (old(resolver)).rule_sem(n)) && (forall|q: Seq<QueryPart<'loc>>| (final(resolver)).query_sem(q) == (old(resolver)).query_sem(q))),
+        clause_post(old(resolver).stack(), final(resolver).stack(), res),
+{ let r = eval_rule_clause(rule_clause, resolver); r }
 } // verus!
 fn main() {}
